@@ -348,6 +348,7 @@ const basePrelude = `(set-option :produce-models true)
 (declare-fun slen! (Int) Int)
 (declare-fun sat! (Int Int) Int)
 (declare-fun sdiff! (Int Int) Int)
+(assert (= (slen! 0) 0))
 (assert (forall ((s Int)) (! (and (>= (slen! s) 0) (<= (slen! s) 9223372036854775807)) :pattern ((slen! s)))))
 (assert (forall ((s Int) (i Int)) (! (and (<= 0 (sat! s i)) (<= (sat! s i) 255)) :pattern ((sat! s i)))))
 (declare-fun fncode! (Int) Int)
